@@ -55,6 +55,21 @@ def gen_cases(tier, seed):
         cases.append({"kind": "joint", "spec": spec, "n": 20000, "seed": 0})
         spec = S.gen_spec(sub, structure=[None, None, 1], fams=[fam])
         cases.append({"kind": "joint", "spec": spec, "n": 20000, "seed": 0})
+    # a conditional variable ALL of whose dependence functions are constants, for every type a constant can come back as
+    # (Python float, 0-d ndarray, numpy scalar): each row still needs its own draw
+    crng = np.random.default_rng([seed, 7, 5])
+    for k in (0, 1, 2):
+        for fam in ("weibull", "lognormal", "normal", "expweib", "gamma"):
+            p1 = S.draw_params(crng, fam, S.RANGE)
+            names = list(p1)
+            dep = [bool(crng.integers(2)) for _ in names]
+            if not any(dep):
+                dep[0] = True
+            params = {nm: ({"shape": "const_scalar", "coef": [S.const_with_return_type(p1[nm], k)]} if dflag else p1[nm]) for nm, dflag in zip(names, dep)}
+            if fam == "weibull":
+                params["gamma"] = 0.0 if not isinstance(params["gamma"], dict) else params["gamma"]
+            spec = {"dims": [{"fam": "weibull", "params": {"alpha": 2.0, "beta": 1.5, "gamma": 0.0}}, {"fam": fam, "cond": 0, "params": params}]}
+            cases.append({"kind": "joint", "spec": spec, "n": 20000, "seed": int(SEEDS[k % len(SEEDS)]), "constant_type": k})
     return cases
 
 
